@@ -96,6 +96,12 @@ func runC30Pair(c c30pCase, settle time.Duration) (msg string, classes []string,
 	}
 	var smu sync.Mutex
 	var streams []*fakes.Stream
+	type liveLookup struct {
+		dir directive.Directive
+		msh link.MountedStreamHandler
+		at  time.Time
+	}
+	liveLookups := map[int][]liveLookup{}
 	defer func() {
 		smu.Lock()
 		for _, s := range streams {
@@ -106,23 +112,39 @@ func runC30Pair(c c30pCase, settle time.Duration) (msg string, classes []string,
 	for i := range mls {
 		src, dst := i, 1-i
 		mls[src].OpenFn = func(octx context.Context, pid protocol.ID) (link.MountedStream, error) {
-			res, err := ctrls[dst].HandleDirective(ctx, fakes.NewInstance(link.NewHandleMountedStream(pid, ids[dst], ids[src])))
-			if err != nil || len(res) != 1 {
-				return nil, fmt.Errorf("remote side does not handle %s: %v", pid, err)
-			}
-			vh := fakes.NewResolverHandler()
-			_ = res[0].Resolve(ctx, vh)
+			// the bus de-duplicates directives: a lookup that declares itself equivalent to one that is still alive (the
+			// transport controller keeps them for a second) is answered by that one's handler
+			dir := link.NewHandleMountedStream(pid, ids[dst], ids[src])
 			var msh link.MountedStreamHandler
-			for _, v := range vh.All() {
-				switch hv := v.(type) {
-				case link.MountedStreamHandler:
-					msh = hv
-				case []link.MountedStreamHandler:
-					msh = hv[0]
+			smu.Lock()
+			for _, ld := range liveLookups[dst] {
+				if eq, ok := dir.(directive.DirectiveWithEquiv); ok && time.Since(ld.at) < time.Second && eq.IsEquivalent(ld.dir) {
+					msh = ld.msh
+					break
 				}
 			}
+			smu.Unlock()
 			if msh == nil {
-				return nil, fmt.Errorf("no stream handler value for %s", pid)
+				res, err := ctrls[dst].HandleDirective(ctx, fakes.NewInstance(dir))
+				if err != nil || len(res) != 1 {
+					return nil, fmt.Errorf("remote side does not handle %s: %v", pid, err)
+				}
+				vh := fakes.NewResolverHandler()
+				_ = res[0].Resolve(ctx, vh)
+				for _, v := range vh.All() {
+					switch hv := v.(type) {
+					case link.MountedStreamHandler:
+						msh = hv
+					case []link.MountedStreamHandler:
+						msh = hv[0]
+					}
+				}
+				if msh == nil {
+					return nil, fmt.Errorf("no stream handler value for %s", pid)
+				}
+				smu.Lock()
+				liveLookups[dst] = append(liveLookups[dst], liveLookup{dir: dir, msh: msh, at: time.Now()})
+				smu.Unlock()
 			}
 			a, b := fakes.NewStreamPair()
 			smu.Lock()
@@ -289,7 +311,7 @@ func checkC30p(c c30pCase) (o vstat.Outcome) {
 
 var specC30p = vstat.Spec[c30pCase]{
 	Property: "C30",
-	Rule: "two real solicitation controllers joined by one link (control and solicited streams are in-memory pipes handed to the other controller's stream handlers; either identity may be the lower peer id); histories of 1-10 solicit / withdraw steps per side over 3 (protocol, context) pairs, two of which concatenate to the same bytes, each step followed by a settling pause; a third of the histories start with one side soliciting and withdrawing a pair before the other side asks for it; " +
+	Rule: "two real solicitation controllers joined by one link (control and solicited streams are in-memory pipes handed to the other controller's stream handlers, stream-handler lookups that declare themselves equivalent to one made within the last second share its handler, as on the bus; either identity may be the lower peer id); histories of 1-10 solicit / withdraw steps per side over 3 (protocol, context) pairs, two of which concatenate to the same bytes, each step followed by a settling pause; a third of the histories start with one side soliciting and withdrawing a pair before the other side asks for it; " +
 		"oracle: a solicitation receives a stream value iff, while it is live, the other side has a live solicitation with the same protocol and context (first match of the pair on the link; later re-solicitations of an already matched pair are not judged); a disagreement is reported only if it shows again with 250 ms of settling per step; non-trivial = a match, a withdrawal, or a boundary-shifted remote pair",
 	Assumptions: []string{"announcements between the two controllers spread within 250 ms when re-checked"},
 	Gen:         genC30p,
